@@ -134,7 +134,7 @@ func synthArgs(r *Rng, m methodInfo, c *synthCtx, variant int) []Val {
 	case "SetOperator":
 		return []Val{[]Val{vOp(1 + variant%6), {K: "uop", S: "~" + itoa(variant)}, vOp(2 + variant%5)}[variant%3]}
 	case "SetLogLevel", "UnsetLogLevel":
-		return []Val{[]Val{vStr("debug"), vLvl(4), vInt(96), vStr("user3"), vLvl(1)}[variant%5]}
+		return []Val{[]Val{vStr("debug"), vLvl(4), vInt(96), vStr("user3"), vLvl(1), vLvl(0), vStr("none"), vInt(0), vStr("all"), vLvl(65535), vStr("trace")}[(variant+r.Intn(11))%11]}
 	case "SetLogger":
 		return []Val{[]Val{vStr("stdout"), vInt(2), {K: "logger"}, vStr("stderr")}[variant%4]}
 	case "SetEncap", "Encap":
